@@ -297,4 +297,288 @@ Proof.
     match type of Hnode with (do c <- ?X; _) = _ => destruct X; [|discriminate] end; cbn [bind] in Hnode; exact Hnode.
 Qed.
 
+(* ---- containers ---- *)
+Definition dynof (slots : list (option node * N)) : list N :=
+  map snd (filter (fun x : option node * N => match fst x with None => true | _ => false end) slots).
+
+Inductive P1rel : list ty -> list (option node * N) -> list (option val) -> Prop :=
+| P1_nil : P1rel [] [] []
+| P1_fixed f n v fs slots pv : is_fixed f = true -> wf f v = true -> mk f v = Ok n -> lenN (ser f v) = min_impl f ->
+    P1rel fs slots pv -> P1rel (f :: fs) ((Some n, 0) :: slots) (Some v :: pv)
+| P1_var f o fs slots pv : is_fixed f = false -> P1rel fs slots pv -> P1rel (f :: fs) ((None, o) :: slots) (None :: pv).
+
+Fixpoint p1bytes (fs : list ty) (slots : list (option node * N)) (pv : list (option val)) : bytes :=
+  match fs, slots, pv with
+  | f :: fs', _ :: slots', Some v :: pv' => ser f v ++ p1bytes fs' slots' pv'
+  | f :: fs', (_, o) :: slots', None :: pv' => le_bytes 4 o ++ p1bytes fs' slots' pv'
+  | _, _, _ => []
+  end.
+Definition need_len (fs : list ty) : N := sumN (map (fun f => if is_fixed f then min_impl f else OFFSET) fs).
+
+Lemma cpass1_step f fs s fz : cpass1 (f :: fs) s fz =
+  if is_fixed_impl f then
+    do x <- deser_impl f s (min_impl f);
+    do r <- cpass1 fs (snd x) (fz + min_impl f);
+    let '(l, s', fz') := r in Ok ((Some (fst x), 0) :: l, s', fz')
+  else
+    let '(o, s1) := decode_offset s in
+    do r <- cpass1 fs s1 (fz + OFFSET);
+    let '(l, s', fz') := r in Ok ((None, o) :: l, s', fz').
+Proof. reflexivity. Qed.
+
+Lemma cpass1_sound : forall fs, Forall sound fs -> forall s fz slots s1 fz',
+  cpass1 fs s fz = Ok (slots, s1, fz') -> need_len fs <= lenN s ->
+  exists pv, P1rel fs slots pv /\ s = p1bytes fs slots pv ++ s1 /\ fz' = fz + need_len fs.
+Proof.
+  induction 1 as [|f fs Hf Hfs IH]; intros s fz slots s1 fz' Hp Hlen.
+  - cbn in Hp. inversion Hp; subst. exists []. split; [constructor|]. split; [reflexivity|]. unfold need_len, sumN. cbn. lia.
+  - rewrite cpass1_step, is_fixed_impl_eq in Hp. unfold need_len in *. cbn [map] in *.
+    change (sumN (?a :: ?l)) with (a + sumN l) in *.
+    destruct (is_fixed f) eqn:Ef.
+    + destruct (deser_impl f s (min_impl f)) as [[n1 s']|] eqn:Hd; [|discriminate]. cbn [bind fst snd] in Hp.
+      destruct (cpass1 fs s' (fz + min_impl f)) as [[[l s''] fz'']|] eqn:Hr; [|discriminate]. cbn [bind] in Hp. inversion Hp; subst slots s1 fz'.
+      destruct (Hf s (min_impl f) n1 s' Hd ltac:(lia)) as (v & Hw & Hm & Hl & Es).
+      destruct (IH s' _ l s'' fz'' Hr) as (pv & HP & Es' & Efz); [rewrite Es, lenN_app in Hlen; lia|].
+      exists (Some v :: pv). split; [now constructor|]. cbn [p1bytes]. split; [rewrite <- app_assoc, <- Es'; exact Es|lia].
+    + destruct (decode_offset s) as [o s'] eqn:Hdo.
+      destruct (cpass1 fs s' (fz + OFFSET)) as [[[l s''] fz'']|] eqn:Hr; [|discriminate]. cbn [bind] in Hp. inversion Hp; subst slots s1 fz'.
+      unfold OFFSET in *. pose proof (decode_offset_sound s o s' ltac:(lia) Hdo) as Es.
+      destruct (IH s' _ l s'' fz'' Hr) as (pv & HP & Es' & Efz); [rewrite Es, lenN_app, le_bytes_lenN in Hlen; lia|].
+      exists (None :: pv). split; [now constructor|]. cbn [p1bytes]. split; [rewrite <- app_assoc, <- Es'; exact Es|lia].
+Qed.
+Definition next_of (offs : list N) (scope : N) : N := match offs with o :: _ => o | [] => scope end.
+Lemma cpass2_fixed scope f fs nd o slots offs s :
+  cpass2 scope (f :: fs) ((Some nd, o) :: slots) offs s = do r <- cpass2 scope fs slots offs s; Ok (nd :: fst r, snd r).
+Proof. reflexivity. Qed.
+Lemma cpass2_var scope f fs fo slots offs s :
+  cpass2 scope (f :: fs) ((None, fo) :: slots) offs s =
+  if next_of (tl offs) scope <? fo then Err EOther
+  else if negb ((min_impl f <=? next_of (tl offs) scope - fo) && (next_of (tl offs) scope - fo <=? max_impl f)) then Err EOther
+       else do x <- deser_impl f s (next_of (tl offs) scope - fo);
+            do r <- cpass2 scope fs slots (tl offs) (snd x);
+            Ok (fst x :: fst r, snd r).
+Proof. reflexivity. Qed.
+
+Lemma hd_app_next (l : list N) scope : hd 0 (l ++ [scope]) = next_of l scope.
+Proof. destruct l; reflexivity. Qed.
+Lemma mono_cons a l : l <> [] -> mono (a :: l) <-> a <= hd 0 l /\ mono l.
+Proof. destruct l as [|b l]; [congruence|]. intros _. reflexivity. Qed.
+
+Lemma cpass2_mono scope : forall fs slots pv, P1rel fs slots pv -> forall s r,
+  cpass2 scope fs slots (dynof slots) s = Ok r -> mono (dynof slots ++ [scope]).
+Proof.
+  induction 1 as [|f n v fs slots pv Hfx Hw Hm Hl HP IH|f o fs slots pv Hfx HP IH]; intros s r Hc.
+  - exact I.
+  - rewrite cpass2_fixed in Hc. change (dynof ((Some n, 0) :: slots)) with (dynof slots) in *.
+    destruct (cpass2 scope fs slots (dynof slots) s) as [r1|] eqn:Hr; [|discriminate]. exact (IH s r1 Hr).
+  - change (dynof ((None, o) :: slots)) with (o :: dynof slots) in *. rewrite cpass2_var in Hc. cbn [tl] in Hc.
+    destruct (next_of (dynof slots) scope <? o) eqn:Hlt; [discriminate|]. apply N.ltb_ge in Hlt.
+    destruct (negb _); [discriminate|].
+    destruct (deser_impl f s _) as [[n1 s1]|]; [|discriminate]. cbn [bind fst snd] in Hc.
+    destruct (cpass2 scope fs slots (dynof slots) s1) as [r1|] eqn:Hr; [|discriminate].
+    cbn [app]. apply mono_cons; [destruct (dynof slots); discriminate|]. rewrite hd_app_next. split; [exact Hlt|exact (IH s1 r1 Hr)].
+Qed.
+
+Lemma mono_next_le (l : list N) scope : mono (l ++ [scope]) -> next_of l scope <= scope.
+Proof.
+  intros Hm. destruct l as [|a l]; [cbn; lia|]. cbn [next_of]. pose proof (mono_last (l ++ [scope]) a 0 Hm) as Hl.
+  change (a :: l ++ [scope]) with ((a :: l) ++ [scope]) in Hl. rewrite last_last in Hl. exact Hl.
+Qed.
+
+Definition agree (pv : list (option val)) (vs : list val) : Prop :=
+  Forall2 (fun p v => match p with Some v' => v' = v | None => True end) pv vs.
+
+Lemma snd_ser_go_off : forall ps o1 o2, snd (ser_go ps o1) = snd (ser_go ps o2).
+Proof.
+  induction ps as [|[fx b] ps IH]; intros o1 o2; [reflexivity|]. cbn [ser_go]. destruct fx.
+  - specialize (IH o1 o2). destruct (ser_go ps o1), (ser_go ps o2). exact IH.
+  - specialize (IH (o1 + lenN b) (o2 + lenN b)). destruct (ser_go ps (o1 + lenN b)), (ser_go ps (o2 + lenN b)). cbn [snd] in *. now rewrite IH.
+Qed.
+
+Lemma cpass2_sound scope : forall fs slots pv, P1rel fs slots pv -> Forall sound fs -> forall s ns rest,
+  cpass2 scope fs slots (dynof slots) s = Ok (ns, rest) -> mono (dynof slots ++ [scope]) ->
+  scope - next_of (dynof slots) scope <= lenN s ->
+  exists vs, F3 (fun f x n => wf f x = true /\ mk f x = Ok n) fs vs ns /\ agree pv vs /\
+    s = snd (ser_go (cparts fs vs) 0) ++ rest /\
+    dynof slots = cdyn fs vs (next_of (dynof slots) scope) /\
+    scope = next_of (dynof slots) scope + sumN (map var_part_len (cparts fs vs)).
+Proof.
+  induction 1 as [|f n v fs slots pv Hfx Hw Hm Hl HP IH|f o fs slots pv Hfx HP IH]; intros Hs s ns rest Hc Hmono Hlen.
+  - cbn in Hc. inversion Hc; subst. exists []. split; [constructor|]. split; [constructor|]. cbn. unfold sumN. cbn. split; [reflexivity|]. split; [reflexivity|lia].
+  - inversion Hs as [|? ? Hf Hfs]; subst. rewrite cpass2_fixed in Hc. change (dynof ((Some n, 0) :: slots)) with (dynof slots) in *.
+    destruct (cpass2 scope fs slots (dynof slots) s) as [[ns1 r1]|] eqn:Hr; [|discriminate]. cbn [bind fst snd] in Hc. inversion Hc; subst ns rest.
+    destruct (IH Hfs s ns1 r1 Hr Hmono Hlen) as (vs & HF & Hag & Es & Ed & Esc).
+    exists (v :: vs). split; [constructor; auto|]. split; [constructor; auto|].
+    cbn [cparts ser_go cdyn map]. rewrite Hfx.
+    destruct (ser_go (cparts fs vs) 0) as [fx vr] eqn:Eg. cbn [snd] in *.
+    split; [exact Es|]. split; [exact Ed|].
+    change (sumN (?a :: ?l)) with (a + sumN l). cbn [var_part_len fst]. lia.
+  - inversion Hs as [|? ? Hf Hfs]; subst. change (dynof ((None, o) :: slots)) with (o :: dynof slots) in *.
+    rewrite cpass2_var in Hc. cbn [tl] in Hc. cbn [next_of] in Hlen |- *.
+    cbn [app] in Hmono. apply mono_cons in Hmono; [|destruct (dynof slots); discriminate]. rewrite hd_app_next in Hmono. destruct Hmono as [Hon Hmono].
+    set (next := next_of (dynof slots) scope) in *.
+    destruct (next <? o) eqn:Hlt; [discriminate|].
+    destruct (negb _); [discriminate|].
+    destruct (deser_impl f s (next - o)) as [[n1 s1]|] eqn:Hd; [|discriminate]. cbn [bind fst snd] in Hc.
+    destruct (cpass2 scope fs slots (dynof slots) s1) as [[ns1 r1]|] eqn:Hr; [|discriminate]. cbn [bind fst snd] in Hc. inversion Hc; subst ns rest.
+    pose proof (mono_next_le (dynof slots) scope Hmono) as Hns. fold next in Hns.
+    destruct (Hf s (next - o) n1 s1 Hd ltac:(lia)) as (v1 & Hw1 & Hm1 & Hl1 & Es).
+    destruct (IH Hfs s1 ns1 r1 Hr Hmono) as (vs & HF & Hag & Es1 & Ed & Esc).
+    { fold next. rewrite Es, lenN_app in Hlen. lia. }
+    fold next in Ed, Esc.
+    exists (v1 :: vs). split; [constructor; auto|]. split; [constructor; auto|].
+    cbn [cparts ser_go cdyn map]. rewrite Hfx.
+    pose proof (snd_ser_go_off (cparts fs vs) (0 + lenN (ser f v1)) 0) as Eoff.
+    destruct (ser_go (cparts fs vs) (0 + lenN (ser f v1))) as [fx vr] eqn:Eg. cbn [snd] in *.
+    split; [rewrite <- app_assoc, Eoff, <- Es1; exact Es|].
+    rewrite Hl1. replace (o + (next - o)) with next by lia. split; [now rewrite <- Ed|].
+    change (sumN (?a :: ?l)) with (a + sumN l). cbn [var_part_len fst snd]. lia.
+Qed.
+Lemma cpass1_shape : forall fs s fz slots s1 fz', cpass1 fs s fz = Ok (slots, s1, fz') ->
+  length slots = length fs /\ fz' = fz + need_len fs /\ (forallb is_fixed fs = false -> dynof slots <> []).
+Proof.
+  induction fs as [|f fs IH]; intros s fz slots s1 fz' Hp.
+  - cbn in Hp. inversion Hp; subst. split; [reflexivity|]. split; [unfold need_len, sumN; cbn; lia|discriminate].
+  - rewrite cpass1_step, is_fixed_impl_eq in Hp. unfold need_len in *. cbn [map forallb] in *.
+    change (sumN (?a :: ?l)) with (a + sumN l) in *.
+    destruct (is_fixed f) eqn:Ef.
+    + destruct (deser_impl f s (min_impl f)) as [[n1 s']|]; [|discriminate]. cbn [bind fst snd] in Hp.
+      destruct (cpass1 fs s' (fz + min_impl f)) as [[[l s''] fz'']|] eqn:Hr; [|discriminate]. cbn [bind] in Hp. inversion Hp; subst slots s1 fz'.
+      destruct (IH _ _ _ _ _ Hr) as (Hl & Hfz & Hd). cbn [length andb]. split; [lia|]. split; [lia|exact Hd].
+    + destruct (decode_offset s) as [o s'].
+      destruct (cpass1 fs s' (fz + OFFSET)) as [[[l s''] fz'']|] eqn:Hr; [|discriminate]. cbn [bind] in Hp. inversion Hp; subst slots s1 fz'.
+      destruct (IH _ _ _ _ _ Hr) as (Hl & Hfz & Hd). cbn [length]. split; [lia|]. split; [lia|]. intros _. discriminate.
+Qed.
+
+Lemma cpass2_mono' scope : forall fs slots, length slots = length fs -> forall s r,
+  cpass2 scope fs slots (dynof slots) s = Ok r -> mono (dynof slots ++ [scope]).
+Proof.
+  induction fs as [|f fs IH]; intros slots Hl s r Hc; destruct slots as [|[[nd|] o] slots]; try discriminate; try exact I.
+  - rewrite cpass2_fixed in Hc. change (dynof ((Some nd, o) :: slots)) with (dynof slots) in *.
+    destruct (cpass2 scope fs slots (dynof slots) s) as [r1|] eqn:Hr; [|discriminate]. apply (IH slots ltac:(cbn in Hl; lia) s r1 Hr).
+  - change (dynof ((None, o) :: slots)) with (o :: dynof slots) in *. rewrite cpass2_var in Hc. cbn [tl] in Hc.
+    destruct (next_of (dynof slots) scope <? o) eqn:Hlt; [discriminate|]. apply N.ltb_ge in Hlt.
+    destruct (negb _); [discriminate|].
+    destruct (deser_impl f s _) as [[n1 s1]|]; [|discriminate]. cbn [bind fst snd] in Hc.
+    destruct (cpass2 scope fs slots (dynof slots) s1) as [r1|] eqn:Hr; [|discriminate].
+    cbn [app]. apply mono_cons; [destruct (dynof slots); discriminate|]. rewrite hd_app_next. split; [exact Hlt|].
+    apply (IH slots ltac:(cbn in Hl; lia) s1 r1 Hr).
+Qed.
+
+Lemma p1bytes_eq : forall fs slots pv, P1rel fs slots pv -> forall vs off, agree pv vs -> dynof slots = cdyn fs vs off ->
+  fst (ser_go (cparts fs vs) off) = p1bytes fs slots pv.
+Proof.
+  induction 1 as [|f n v fs slots pv Hfx Hw Hm Hl HP IH|f o fs slots pv Hfx HP IH]; intros vs off Hag Hd.
+  - inversion Hag; subst. reflexivity.
+  - inversion Hag as [|? v' ? vs' Ev Hag']; subst. change (dynof ((Some n, 0) :: slots)) with (dynof slots) in Hd.
+    cbn [cparts ser_go cdyn p1bytes] in *. rewrite Hfx in *. specialize (IH vs' off Hag' Hd).
+    destruct (ser_go (cparts fs vs') off). cbn [fst] in *. now rewrite IH.
+  - inversion Hag as [|? v' ? vs' Ev Hag']; subst. change (dynof ((None, o) :: slots)) with (o :: dynof slots) in Hd.
+    cbn [cparts ser_go cdyn p1bytes] in *. rewrite Hfx in *. inversion Hd as [[Eo Hd']]. specialize (IH vs' _ Hag' Hd').
+    destruct (ser_go (cparts fs vs') (off + lenN (ser f v'))). cbn [fst] in *. now rewrite IH.
+Qed.
+
+Lemma fields_mk : forall fs vs ns, F3 (fun f x n => wf f x = true /\ mk f x = Ok n) fs vs ns ->
+  (fix go (fs : list ty) (vs : list val) : result (list node) :=
+     match fs, vs with
+     | [], [] => Ok []
+     | f :: fs', x :: vs' => do a <- mk f x; do r <- go fs' vs'; Ok (a :: r)
+     | _, _ => Err EAttr
+     end) fs vs = Ok ns /\
+  (fix go (fs : list ty) (vs : list val) : bool :=
+     match fs, vs with
+     | [], [] => true
+     | f :: fs', x :: vs' => wf f x && go fs' vs'
+     | _, _ => false
+     end) fs vs = true.
+Proof.
+  induction 1 as [|f x n fs vs ns [Hw Hm] HF [IH1 IH2]]; [split; reflexivity|]. rewrite Hm, Hw, IH1, IH2. split; reflexivity.
+Qed.
+
+Lemma cfloop_step f fs s : cfloop (f :: fs) s =
+  do x <- deser_impl f s (min_impl f); do r <- cfloop fs (snd x); Ok (fst x :: fst r, snd r).
+Proof. reflexivity. Qed.
+Lemma cfloop_sound : forall fs, Forall sound fs -> forallb is_fixed fs = true -> forall s ns rest,
+  cfloop fs s = Ok (ns, rest) -> sumN (map min_impl fs) <= lenN s ->
+  exists vs, F3 (fun f x n => wf f x = true /\ mk f x = Ok n) fs vs ns /\
+    (forall off, s = fst (ser_go (cparts fs vs) off) ++ rest) /\
+    lenN (ser_parts (cparts fs vs)) = sumN (map min_impl fs).
+Proof.
+  induction 1 as [|f fs Hf Hfs IH]; intros Hfx s ns rest Hc Hlen.
+  - cbn in Hc. inversion Hc; subst. exists []. split; [constructor|]. split; reflexivity.
+  - cbn [forallb] in Hfx. apply andb_true_iff in Hfx as [Hf1 Hf2]. rewrite cfloop_step in Hc. cbn [map] in Hlen.
+    change (sumN (?a :: ?l)) with (a + sumN l) in *.
+    destruct (deser_impl f s (min_impl f)) as [[n1 s1]|] eqn:Hd; [|discriminate]. cbn [bind fst snd] in Hc.
+    destruct (cfloop fs s1) as [[ns1 r1]|] eqn:Hr; [|discriminate]. cbn [bind fst snd] in Hc. inversion Hc; subst ns rest.
+    destruct (Hf s (min_impl f) n1 s1 Hd ltac:(lia)) as (v1 & Hw1 & Hm1 & Hl1 & Es).
+    destruct (IH Hf2 s1 ns1 r1 Hr) as (vs & HF & Es1 & El); [rewrite Es, lenN_app in Hlen; lia|].
+    exists (v1 :: vs). split; [constructor; auto|]. cbn [cparts ser_go]. rewrite Hf1. split.
+    + intros off. specialize (Es1 off). destruct (ser_go (cparts fs vs) off). cbn [fst] in *. rewrite <- app_assoc, <- Es1. exact Es.
+    + rewrite ser_parts_len in *. cbn [map]. change (sumN (?a :: ?l)) with (a + sumN l). cbn [part_len fst snd]. lia.
+Qed.
+Lemma min_impl_fixed_container fs : forallb is_fixed fs = true -> min_impl (TContainer fs) = sumN (map min_impl fs).
+Proof.
+  intros Hf. rewrite min_impl_eq. cbn [min_len]. induction fs as [|f fs IH]; [reflexivity|].
+  cbn [forallb] in Hf. apply andb_true_iff in Hf as [Hf1 Hf2]. cbn [map]. change (sumN (?a :: ?l)) with (a + sumN l).
+  rewrite Hf1, IH by exact Hf2. now rewrite min_impl_eq.
+Qed.
+
+Lemma sound_container fs : wf_ty (TContainer fs) = true -> Forall sound fs -> sound (TContainer fs).
+Proof.
+  intros Hty Hs s scope n rest Hd Hsc. rewrite deser_container_unfold in Hd. unfold DeserProofs.cont_deser in Hd.
+  rewrite is_fixed_impl_eq in Hd. cbn [is_fixed] in Hd.
+  destruct (forallb is_fixed fs) eqn:Efx.
+  - (* fixed-size *)
+    destruct (scope =? min_impl (TContainer fs)) eqn:Esc; cbn [negb] in Hd; [|discriminate]. apply N.eqb_eq in Esc.
+    rewrite (min_impl_fixed_container fs Efx) in Esc.
+    destruct (cfloop fs s) as [[ns r1]|] eqn:Hc; [|discriminate]. cbn [bind fst snd] in Hd.
+    destruct (fill_to_contents H ns (contents_depth (TContainer fs))) as [nd|] eqn:Hf; [|discriminate]. cbn [bind] in Hd. inversion Hd; subst nd r1.
+    destruct (cfloop_sound fs Hs Efx s ns rest Hc ltac:(lia)) as (vs & HF & Es & El).
+    destruct (fields_mk fs vs ns HF) as [Hgo Hwf].
+    exists (VCont vs). split; [exact Hwf|]. split; [cbn [ModelViews.mk]; rewrite Hgo; cbn [bind]; exact Hf|].
+    rewrite ser_container. split; [lia|].
+    unfold ser_parts. specialize (Es (sumN (map fixed_part_len (cparts fs vs)))).
+    pose proof (all_fixed_no_var fs vs (sumN (map fixed_part_len (cparts fs vs))) Efx) as Hnv.
+    destruct (ser_go (cparts fs vs) (sumN (map fixed_part_len (cparts fs vs)))) as [fx vr]. cbn [fst snd] in *. subst vr. now rewrite app_nil_r.
+  - (* variable-size *)
+    destruct (cpass1 fs s 0) as [[[slots s1] fixed_size]|] eqn:Hp1; [|discriminate]. cbn [bind] in Hd.
+    destruct (cpass1_shape fs s 0 slots s1 fixed_size Hp1) as (Hlen & Hfz & Hdyn). specialize (Hdyn Efx).
+    fold (dynof slots) in Hd. destruct (dynof slots) as [|o0 dtl] eqn:Edyn; [congruence|].
+    destruct (o0 =? fixed_size) eqn:Eo0; cbn [negb] in Hd; [|discriminate]. apply N.eqb_eq in Eo0.
+    rewrite <- Edyn in Hd.
+    destruct (cpass2 scope fs slots (dynof slots) s1) as [[ns r1]|] eqn:Hp2; [|discriminate]. cbn [bind fst snd] in Hd.
+    destruct (fill_to_contents H ns (contents_depth (TContainer fs))) as [nd|] eqn:Hf; [|discriminate]. cbn [bind] in Hd. inversion Hd; subst nd r1.
+    pose proof (cpass2_mono' scope fs slots Hlen s1 _ Hp2) as Hmono.
+    assert (o0 <= scope) as Ho0.
+    { rewrite Edyn in Hmono. pose proof (mono_last (dtl ++ [scope]) o0 0 Hmono) as Hl. change (o0 :: dtl ++ [scope]) with ((o0 :: dtl) ++ [scope]) in Hl. now rewrite last_last in Hl. }
+    destruct (cpass1_sound fs Hs s 0 slots s1 fixed_size Hp1 ltac:(lia)) as (pv & HP & Es & _).
+    destruct (cpass2_sound scope fs slots pv HP Hs s1 ns rest Hp2 Hmono) as (vs & HF & Hag & Es1 & Ed & Escope).
+    { rewrite Edyn. cbn [next_of]. rewrite Es, lenN_app in Hsc.
+      assert (lenN (p1bytes fs slots pv) = need_len fs) as Hpl.
+      { clear - HP. induction HP as [|f n v fs slots pv Hfx Hw Hm Hl HP IH|f o fs slots pv Hfx HP IH]; [reflexivity| |];
+          unfold need_len in *; cbn [p1bytes map]; change (sumN (?a :: ?l)) with (a + sumN l); rewrite lenN_app, IH, Hfx; [lia|rewrite le_bytes_lenN; reflexivity]. }
+      lia. }
+    rewrite Edyn in Ed, Escope. cbn [next_of] in Ed, Escope.
+    destruct (fields_mk fs vs ns HF) as [Hgo Hwf].
+    exists (VCont vs). split; [exact Hwf|]. split; [cbn [ModelViews.mk]; rewrite Hgo; cbn [bind]; exact Hf|].
+    rewrite ser_container.
+    (* the spec's fixed-part length is the first offset *)
+    assert (sumN (map fixed_part_len (cparts fs vs)) = o0) as Eflen.
+    { rewrite Eo0, Hfz, N.add_0_l. clear - HP Hag. revert vs Hag. unfold need_len.
+      induction HP as [|f n v fs slots pv Hfx Hw Hm Hl HP IH|f o fs slots pv Hfx HP IH]; intros vs Hag;
+        inversion Hag as [|? v' ? vs' Ev Hag']; subst; [reflexivity| |];
+        cbn [cparts map]; change (sumN (?a :: ?l)) with (a + sumN l); rewrite (IH vs' Hag'), Hfx; cbn [fixed_part_len fst snd]; [lia|reflexivity]. }
+    split.
+    + rewrite ser_parts_len. rewrite Escope.
+      assert (forall ps, sumN (map part_len ps) = sumN (map fixed_part_len ps) + sumN (map var_part_len ps)) as Hsplit.
+      { induction ps as [|[fx b] ps IHp]; [reflexivity|]. cbn [map]. change (sumN (?a :: ?l)) with (a + sumN l).
+        rewrite IHp. destruct fx; cbn [part_len fixed_part_len var_part_len fst snd]; unfold OFFSET; lia. }
+      rewrite Hsplit, Eflen. reflexivity.
+    + unfold ser_parts. rewrite Eflen.
+      pose proof (p1bytes_eq fs slots pv HP vs o0 Hag ltac:(rewrite Edyn; exact Ed)) as Ep1.
+      pose proof (snd_ser_go_off (cparts fs vs) o0 0) as Eoff.
+      destruct (ser_go (cparts fs vs) o0) as [fx vr]. cbn [fst snd] in *. subst fx. rewrite Eoff.
+      rewrite <- app_assoc, <- Es1. exact Es.
+Qed.
+
 End WithHash.
